@@ -107,6 +107,15 @@ CHECKS.update({
             TRUST_HTTP, '4.7'),
 })
 
+CHECKS.update({
+    'C09': ('exploration',
+            'offline pairwise checker over recorded manifest histories at increasing virtual instants; MPD patches applied with an independent RFC 5261 subset and compared with the full manifest',
+            'Chains of 2..8 instants per generated option vector on the three timeline-capable templates, deltas from 1 ms to hours incl. segment, '
+            'loop, day and ttl crossings; shared segments, window monotonicity, publishTime/AST monotonicity and patch equivalence are decided '
+            'from the recorded documents only.',
+            TRUST_HTTP, '4.9'),
+})
+
 NOT_YET = {}
 
 
